@@ -14,13 +14,14 @@ probing runs; the recorded observations must be a behaviour of Cache.tla (Design
 the same elements; `restart` runs the SAME container object once more (model: rr = TRUE, Restart).
 C2S: seeded random longer histories (with restarts), validated the same way.
 """
+import pickle
 import random
 
 from .. import cachelib as cl
 from .. import core
 
-MUST = ("NewAny", "DropAny", "ChangeData", "StartAny", "Restart", "Deliver", "Exhaust", "RaiseAt", "Stop", "BrokenRaise")
-PROTOCOLS = (2, 0, 4, 3)
+MUST =("NewAny", "DropAny", "ChangeData", "StartAny", "Restart", "Deliver", "Exhaust", "RaiseAt", "Stop", "BrokenRaise")
+PROTOCOLS = (2, 0, 4, 3, pickle.HIGHEST_PROTOCOL)
 
 
 def random_history(rnd):
@@ -113,9 +114,13 @@ def _binding_demo(ctx, d, scen, cmds):
 def run(ctx):
     tag = "thorough" if ctx.thorough else "quick"
     ctx.assume("pre / mid / post are one-to-one harness elements (tagging, counting, raising on demand); "
-               "flow values are picklable values in eight styles (int, (data, context), str, nested, context only, falsy objects, "
-               "one context dict updated in place for every value, one growing list object), each identified by "
-               "its snapshot at the moment it is yielded; the flow length depends on the data version")
+               "flow values are picklable values in nine styles (int, (data, context), str, nested, context only, falsy objects, "
+               "one context dict updated in place for every value, one growing list object, values with internal sharing - "
+               "one str / tuple object at several places, always stored with protocol 4 or the highest), each identified by "
+               "its snapshot at the moment it is yielded; the flow length depends on the data version; pickle protocols "
+               "0, 2, 3, 4 and the highest; an element that raises raises an Exception, a plain BaseException subclass, "
+               "KeyboardInterrupt or SystemExit; the two caches of a pipeline are named c1.v1.ü.pkl + sub/c2.pkl, "
+               "events.raw + events.sel, events + events.pkl or store/cache + store/cache.v2")
     ctx.assume("a cache left by an interrupted run may be kept, removed, refused with an exception by a later "
                "run, or hold the complete flow - everything except a loadable proper prefix is accepted")
     ctx.assume("a container that alter_sequence built from a filled cache (a Source without the upstream) and that is "
@@ -144,12 +149,30 @@ def run(ctx):
     items = [(scen, cmds, fallback[i % len(fallback)], prot)
              if style in cl.ALIAS_STYLES and any(c["cmd"] == "start" and c["a"] == "split" for c in cmds)
              else (scen, cmds, style, prot) for i, (scen, cmds, style, prot) in enumerate(items)]
+    # explicit dimensions: values with internal sharing always go through a memoizing protocol (4 or the
+    # highest); the class of the injected exception rotates over the histories in which an element raises;
+    # the pair of cache file names rotates over the histories with two caches
+    nraise = ntwo = 0
+    full = []
+    for i, (scen, cmds, style, prot) in enumerate(items):
+        if style == "shared":
+            prot = (4, pickle.HIGHEST_PROTOCOL)[(i // len(cl.STYLES)) % 2]
+        opts = {"names": 0, "exc": "exc"}
+        if any(c["cmd"] == "raise" for c in cmds):
+            opts["exc"] = cl.EXC_KINDS[nraise % len(cl.EXC_KINDS)]
+            nraise += 1
+        if scen["nc"] == 2:
+            opts["names"] = ntwo % len(cl.NAME_PAIRS)
+            ntwo += 1
+        full.append((scen, cmds, style, prot, opts))
+    items = full
     ctx.extra["histories_with_restart"] = sum(1 for _s, cmds in paths if any(c["cmd"] == "restart" for c in cmds))
     # ---- code -> spec: random longer histories (validated in the same wave of TLC runs)
     rnd = random.Random(ctx.seed)
     for i in range(6000 if ctx.thorough else 400):
         scen, cmds = random_history(rnd)
-        items.append((scen, cmds, rnd.choice(cl.STYLES), rnd.choice(PROTOCOLS)))
+        items.append((scen, cmds, rnd.choice(cl.STYLES), rnd.choice(PROTOCOLS),
+                      {"names": rnd.randrange(len(cl.NAME_PAIRS)), "exc": rnd.choice(cl.EXC_KINDS)}))
     cl.check_histories(ctx, items, "replay")
     binding_demo(ctx)
     return ctx.finish(
